@@ -193,6 +193,33 @@ def desc(cfg):
     return ', '.join(f"{k}={v}" for k, v in cfg.items())
 
 
+def a3_driver(cfg):
+    """Two BatchSage explainers built from the required arguments only (default storage) in one process: the second one
+    must explain its OWN observations only."""
+    def driver(run):
+        from ixai.explainer import BatchSage
+        names = names_for(cfg['d'])
+        letters = letters_for(names, 'scalar')
+        outs = []
+        for inst in range(2):
+            log = EventLog()
+            model = Model(names, 'scalar', None, log)
+            loss = Loss('scalar', 'poly', log)
+            ex = BatchSage(model, list(names), loss, n_inner_samples=cfg['n'])
+            data = []
+            for t in range(2):
+                x, y = letters[(run.choose(len(letters), 'obs', None, 0) + inst) % len(letters)]
+                x = {k: v + 100 * inst for k, v in x.items()}
+                mark = log.mark()
+                res = ex.explain_one(dict(x), y, original_sage=cfg['original'], verbose=False)
+                data.append((x, y))
+                where = f"BatchSage #{inst + 1} (default storage, built after {inst} other BatchSage) call {t + 1} on {data}"
+                check_result(cfg, where, model, loss, names, list(data), res, log.since(mark), cfg['original'])
+            outs.append(tuple(sorted((k, float(v)) for k, v in res.items())))
+        return tuple(outs)
+    return driver
+
+
 # ------------------------------------------------------------------------------------------ part B
 class IntervalState:
     def __init__(self, L, S):
@@ -297,6 +324,8 @@ def plan(tier):
             for n in (1, 2):
                 tasks.append(('A2', dict(original=original, d=2, n=n, T=4 if deep else 3, storage=storage,
                                          model='scalar'), 1))
+    for original in (False, True):
+        tasks.append(('A3', dict(original=original, d=2, n=1), 1))
     for L in (1, 2, 3):
         for S in (1, 2, 3):
             tasks.append(('B', dict(L=L, S=S, depth=2 * L + (3 if deep else 2)), None))
@@ -325,7 +354,7 @@ def run_task(task):
 
     def on_leaf(run, res):
         outcomes.add(res)
-    drv = a1_driver(cfg) if part == 'A1' else a2_driver(cfg)
+    drv = a1_driver(cfg) if part == 'A1' else (a3_driver(cfg) if part == 'A3' else a2_driver(cfg))
     st = choice.explore(drv, on_leaf=on_leaf, bound=bound)
     dl = False
     if bound is not None and not st.violations:
@@ -382,7 +411,7 @@ def replay(data):
             print("HARNESS-ERROR: replay not deterministic")
             return 2
     else:
-        drv = a1_driver(cfg) if part == 'A1' else a2_driver(cfg)
+        drv = a1_driver(cfg) if part == 'A1' else (a3_driver(cfg) if part == 'A3' else a2_driver(cfg))
         run, res, v = choice.execute(drv, tuple(r['prefix']), default_last=bool(r.get('default_last')))
     if v:
         print(f"VIOLATION property={PID} replay=(reproduced)\n  {v.what}")
